@@ -8,11 +8,19 @@
 (*   compile_params : fitted parameters in declaration order, one prior    *)
 (*                    per fitted parameter (parallel lists)                *)
 (*   prior callback : cube[i] = fitting_priors[i].sample(u[i])             *)
+(*   compile_params : the prior of a fitted parameter is the one given     *)
+(*                    through set_prior if any (it may live in the OTHER   *)
+(*                    space than the parameter's mode: LogUniform on a     *)
+(*                    linear-mode parameter, Uniform on a log-mode one),   *)
+(*                    else the default built from mode and bounds          *)
 (*   update_model   : zip(x, fitting_parameters, fitting_priors):          *)
-(*                    fset(prior.prior(x_i))     (value | 10**value)       *)
+(*                    fset(prior.prior(x_i))     (value | 10**value, by    *)
+(*                    the space of the PRIOR, not the parameter's mode)    *)
 (*   chisq_trans    : model on the observation grid -> bin_model ->        *)
 (*                    sum(((data - binned)/sigma)^2); InvalidModelException*)
-(*                    (and every subclass) -> NaN                          *)
+(*                    (and every subclass) -> NaN; a model that returns    *)
+(*                    NaN in every bin without raising -> NaN; NaN in some *)
+(*                    bins -> those bins are skipped                       *)
 (*   loglike        : -sum(log(sigma*sqrt(2 pi))) - chi2/2                 *)
 (* The transcendental constant -sum(log(sigma sqrt(2 pi))) is added by the *)
 (* harness; the specification carries h = chi2/2 as an exact rational.     *)
@@ -26,8 +34,14 @@ EXTENDS Integers, Sequences, FiniteSets, TLC, Json, Rat, LikeRules
 CONSTANTS
   NP,         \* model parameters 1..NP in declaration order
   FitFlag,    \* [1..NP -> BOOLEAN]            enabled for fitting
-  PMode,      \* [1..NP -> {"lin","log"}]      space of the parameter's prior
-  Lo, Hi,     \* [1..NP -> Int]                prior bounds in prior space (value / exponent)
+  ParMode,    \* [1..NP -> {"lin","log"}]      the parameter's own fitting mode
+  Lo, Hi,     \* [1..NP -> Int]                the parameter's bounds in the space of its mode (value / exponent):
+              \*                               the default prior
+  UserSet,    \* [1..NP -> BOOLEAN]            a prior was given through set_prior
+  UMode,      \* [1..NP -> {"lin","log"}]      its space (independent of ParMode)
+  ULo, UHi,   \* [1..NP -> Int]                its bounds in its own space
+  WriteBy,    \* "prior": update_model applies prior.prior (the code) | "parmode": it exponentiates by the
+              \*          parameter's mode (expected-counterexample variant)
   Val0,       \* [1..NP -> Int]                linear values before the first call
   XSet,       \* [1..NP -> SUBSET Int]         sampled-space coordinates handed to loglike
   UDen,       \* unit-cube grid  u = j/UDen, j = 0..UDen
@@ -37,6 +51,9 @@ CONSTANTS
   ChemSet, ChemLimit,   \* InvalidChemistry  iff  SUM_{p in ChemSet} v[p] > ChemLimit
   TLow, THigh,          \* InvalidTemperature iff v[TLow] >= v[THigh]   (inverted nodes)
   Faults,     \* exception classes a fault-injecting contribution may raise on any call
+  NaNFaults,  \* subset of NaNKinds: the model returns NaN in all / some bins without raising, on any call
+  NaNBins,    \* the bins that are NaN under "NaNSome" (a proper, non-empty subset of the bins)
+  AllNaN,     \* "nan" | "zero": result when no bin can be compared (the code: "nan")
   Caught,     \* classes absorbed by the callback (InvalidModelException catches all subclasses)
   ZeroChi     \* "value" | "nan" : result of a perfect fit chi2 = 0  (as built at the pinned commit: "nan")
 
@@ -51,10 +68,12 @@ view == <<val, cube, res, raised>>
 \* ------------------------------------------------------------------ compile
 FitSeq == SelectSeq([i \in 1..NP |-> i], LAMBDA p : FitFlag[p])     \* fitting_parameters
 NF     == Len(FitSeq)
-PriorSeq == [i \in 1..NF |-> [mode |-> PMode[FitSeq[i]], lo |-> Lo[FitSeq[i]], hi |-> Hi[FitSeq[i]]]]  \* fitting_priors
+PriorOf(p) == IF UserSet[p] THEN [mode |-> UMode[p], lo |-> ULo[p], hi |-> UHi[p]]       \* set_prior wins
+              ELSE [mode |-> ParMode[p], lo |-> Lo[p], hi |-> Hi[p]]                    \* default from mode + bounds
+PriorSeq == [i \in 1..NF |-> PriorOf(FitSeq[i])]                                        \* fitting_priors
 
 \* ------------------------------------------------------------------- priors
-PriorWrite(pr, x)  == PriorToModel(pr.mode, x)                          \* Prior.prior
+PriorWrite(i, x)   == PriorToModel(IF WriteBy = "prior" THEN PriorSeq[i].mode ELSE ParMode[FitSeq[i]], x)  \* Prior.prior
 PriorSample(pr, u) == UniformSample(Q(pr.lo), Q(pr.hi), u)              \* Prior.sample
 
 \* -------------------------------------------------------------------- model
@@ -64,8 +83,11 @@ Native(v, k) == SumFn([p \in 1..NP |-> Coef[p][k] * v[p]], NP)
 RECURSIVE SumOver(_, _)
 SumOver(f, S) == IF S = {} THEN 0 ELSE LET e == CHOOSE e \in S : TRUE IN f[e] + SumOver(f, S \ {e})
 BinMean(v, b) == Norm(SumOver([k \in 1..K |-> Native(v, k)], Bins[b]), Cardinality(Bins[b]))
-Chi2(v) == RSumSeq([b \in 1..Len(Bins) |->
-              LET z == RDiv(RSub(Q(Data[b]), BinMean(v, b)), Q(Sig[b])) IN RMul(z, z)])
+\* chi2 over the bins that can be compared (skip = the NaN bins)
+Chi2Skip(v, skip) == RSumSeq([b \in 1..Len(Bins) |->
+              IF b \in skip THEN RZero
+              ELSE LET z == RDiv(RSub(Q(Data[b]), BinMean(v, b)), Q(Sig[b])) IN RMul(z, z)])
+Chi2(v) == Chi2Skip(v, {})
 Outcome(v) == IF SumOver(v, ChemSet) > ChemLimit THEN "InvalidChemistry"
               ELSE IF v[TLow] >= v[THigh] THEN "InvalidTemperature"
               ELSE "ok"
@@ -74,7 +96,7 @@ Outcome(v) == IF SumOver(v, ChemSet) > ChemLimit THEN "InvalidChemistry"
 \* update_model: walk the zipped lists, write parameter FitSeq[i] with PriorSeq[i]
 RECURSIVE Written(_, _, _)
 Written(v, x, i) == IF i > NF THEN v
-                    ELSE Written([v EXCEPT ![FitSeq[i]] = PriorWrite(PriorSeq[i], x[i])], x, i + 1)
+                    ELSE Written([v EXCEPT ![FitSeq[i]] = PriorWrite(i, x[i])], x, i + 1)
 
 Mk(k, h, x, inj) == [k |-> k, h |-> h, x |-> x, inj |-> inj]
 
@@ -89,9 +111,11 @@ PriorCall(u) ==
 
 ResultOf(v2, x, inj) ==
     LET oc == IF inj # "none" THEN inj ELSE Outcome(v2)
-        c2 == Chi2(v2)
-        k  == ResultKind(oc, Caught, ZeroChi, c2)
-    IN  Mk(k, IF k = "num" THEN RDiv(c2, Q(2)) ELSE RZero, x, inj)
+        c2 == IF oc = "NaNAll" THEN RZero                       \* nansum of nothing
+              ELSE IF oc = "NaNSome" THEN Chi2Skip(v2, NaNBins)
+              ELSE Chi2(v2)
+        k  == ResultKind(oc, Caught, ZeroChi, AllNaN, c2)
+    IN  Mk(k, IF k \in {"num", "part"} THEN RDiv(c2, Q(2)) ELSE RZero, x, inj)
 
 LogLike(x, inj) ==
     /\ val' = Written(val, x, 1)
@@ -110,7 +134,7 @@ UVectors(n) == IF n = 2 THEN {<<a, b>> : a \in UGrid, b \in UGrid}
 
 PriorStep == \E u \in UVectors(NF) : PriorCall(u)
 LikeStep  == \E x \in Vectors(NF) : LogLike(x, "none")
-FaultStep == \E x \in Vectors(NF), f \in Faults : LogLike(x, f)
+FaultStep == \E x \in Vectors(NF), f \in (Faults \cup NaNFaults) : LogLike(x, f)
 Next == PriorStep \/ LikeStep \/ FaultStep
 Spec == Init /\ [][Next]_vars
 
@@ -118,23 +142,28 @@ Spec == Init /\ [][Next]_vars
 \* what the statement says about a call at x, as a function of x and of the settings only
 PosOf(p) == CHOOSE i \in 1..NF : FitSeq[i] = p
 ExpV(x)  == [p \in 1..NP |-> IF FitFlag[p]
-                              THEN (IF PMode[p] = "lin" THEN x[PosOf(p)] ELSE Pow(10, x[PosOf(p)]))
+                              THEN (IF PriorOf(p).mode = "lin" THEN x[PosOf(p)] ELSE Pow(10, x[PosOf(p)]))
                               ELSE Val0[p]]
 Called   == res.k # "none"
-InvalidCall == res.inj # "none" \/ Outcome(ExpV(res.x)) # "ok"
+PartialCall == res.inj = "NaNSome"                      \* some bins NaN: the statement is silent
+InvalidCall == ~PartialCall /\ (res.inj # "none" \/ Outcome(ExpV(res.x)) # "ok")     \* includes "NaNAll"
 
-ValidEqualsGaussian == (Called /\ ~InvalidCall) =>
+ValidEqualsGaussian == (Called /\ ~InvalidCall /\ ~PartialCall) =>
                           /\ res.k = "num"
                           /\ res.h = RDiv(Chi2(ExpV(res.x)), Q(2))      \* also: no carry-over from earlier calls
 InvalidNeverFinite  == (Called /\ InvalidCall) => res.k # "num"
+\* some bins NaN: non-finite, or the Gaussian over the comparable bins -- never anything else
+PartialSkipsOrNaN   == (Called /\ PartialCall) =>
+                          \/ res.k = "nan"
+                          \/ res.k = "part" /\ res.h = RDiv(Chi2Skip(ExpV(res.x), NaNBins), Q(2))
 NeverRaises         == ~raised /\ res.k # "raise"
 WrittenIsPriorOfX   == Called => \A p \in 1..NP : FitFlag[p] => val[p] = ExpV(res.x)[p]
 OnlyFittedWritten   == \A p \in 1..NP : ~FitFlag[p] => val[p] = Val0[p]
 OrderIsFitOrder     == cube # <<>> =>
                           /\ Len(cube) = NF
-                          /\ \A i \in 1..NF : LET p == FitSeq[i]
-                                                  a == IF Lo[p] <= Hi[p] THEN Lo[p] ELSE Hi[p]
-                                                  b == IF Lo[p] <= Hi[p] THEN Hi[p] ELSE Lo[p]
+                          /\ \A i \in 1..NF : LET pr == PriorOf(FitSeq[i])
+                                                  a == IF pr.lo <= pr.hi THEN pr.lo ELSE pr.hi
+                                                  b == IF pr.lo <= pr.hi THEN pr.hi ELSE pr.lo
                                               IN  RLe(Q(a), cube[i]) /\ RLe(cube[i], Q(b))
 DeclarationOrder    == \A i \in 1..NF, j \in 1..NF : i < j => FitSeq[i] < FitSeq[j]
 FitsInv             == Fits(res.h) /\ \A p \in 1..NP : val[p] < Big
